@@ -485,7 +485,11 @@ impl BuildJob<'_> {
             None,
         );
         let state = ptx.commit().map_err(RedoError::opaque_error)?;
+        let fid = self.lock.file_id();
         let job = server.start(self.t.into_string(), || {
+            // We hold this target's lock while redo-unlocked works on its
+            // dependencies: a request for it from below is a cycle.
+            cycles::add(fid.to_string());
             env::set_var(ENV_DEPTH, {
                 let mut depth = state.env().depth().to_string();
                 depth.push_str("  ");
